@@ -42,8 +42,13 @@ def write_forms(t):
         out.append(("loop-counter", "from 0 to 3, C {\n}", False))
         out.append(("loop-counter-step", "from 0 through 8 step 2, C {\n}", False))
         out.append(("unpack", "[C, unp] = [7, 8]", False))
+        # the constant in every position of a multi-name unpack, next to names that are new and names that already exist
+        out += [("unpack-second-after-new", "[unq, C] = [7, 8]", False), ("unpack-second-after-existing", "ev = 0\n[ev, C] = [7, 8]", False),
+                ("unpack-middle-after-existing", "ev = 0\n[ev, C, unz] = [7, 8, 9]", False), ("unpack-last-of-three", "ev = 0\new = 0\n[ev, ew, C] = [7, 8, 9]", False),
+                ("unpack-first-before-existing", "ev = 0\n[C, ev] = [7, 8]", False), ("unpack-twice", "ev = 0\n[ev, C] = [7, 8]\n[ev, C] = [9, 10]", False)]
     if t == "str":
         out.append(("op+=", "C += \"x\"", False))
+        out += [("unpack-second-after-existing", "ev = \"e\"\n[ev, C] = [\"p\", \"q\"]", False), ("unpack-second-after-new", "[unq, C] = [\"p\", \"q\"]", False)]
     if t == "opt":
         out.append(("unwrap-stmt", "C ?= src", False))
         out.append(("unwrap-if", "if C ?= src {\n}", False))
@@ -209,6 +214,20 @@ def special_programs():
         for w in ("type C K\nC = K()\nC.f = 9", "type C K\nC.f = 9", "type Al K\nAl = K", "type Al K\nAl = 5"):
             src = kclass + "print \"@start\"\nconst C = K()\nrd = fn() -> int {\n\treturn C.f\n}\n" + place_write(w if ctx != "fn" else w, ctx) + "\nprint \"@obs\"\nprint C.f\nprint rd()\n"
             out.append(({"decl": "const-then-type-alias", "type": "obj", "form": w.replace("\n", "; "), "wctx": ctx}, {"main.ms": src}, "1"))
+    # a function declares a constant named like a variable it could capture: `modify` with that name addresses the captured
+    # variable - and must not leave the name standing for anything but the constant in what follows
+    for t, outer, init, other, obs, exp, writes in (
+            ("int", "C = 1", "const C = 5", "6", "C", "5", ["C = 7", "C += 1", "C -= 1", "C *= 3", "from 0 to 3, C {\n}", "[C, z] = [1, 2]", "C: int = 7", "modify C = 8"]),
+            ("str", "C = \"a\"", "const C = \"k\"", "\"b\"", "C", "k", ["C = \"z\"", "C += \"z\"", "C: str = \"z\""]),
+            ("list", "C: [int...] = [1]", "const C: [int...] = [5]", "[6]", "C", "[5]", ["C[0] = 9", "C[0] += 9", "C = [7]"]),
+            ("obj", "C = K()", "const C = K()", "K()", "C.f", "1", ["C.f = 9", "C.f += 9", "C = K()"])):
+        for hide in ("modify C = %s" % other, "if true {\n\tmodify C = %s\n}" % other, "from 0 to 1 {\n\tmodify C = %s\n}" % other, "modify C = %s\nmodify C = %s" % (other, other)):
+            for w in writes:
+                for wctx in ("same", "block", "loop"):
+                    body = "%s\nrd = fn() -> %s {\n\treturn %s\n}\n%s\n%s\nprint \"@obs\"\nprint %s\nprint rd()" % (
+                        init, {"int": "int", "str": "str", "list": "[int...]", "obj": "int"}[t], obs, hide, place_write(w, wctx), obs)
+                    src = (kclass if t == "obj" else "") + outer + "\nprint \"@start\"\nmain = fn() {\n" + ind(body) + "\n}\nmain()\n"
+                    out.append(({"decl": "own-const-beside-captured-variable", "type": t, "form": (hide.split("\n")[0] if not hide.startswith("modify") else "modify") + "; " + w.split("\n")[0], "wctx": wctx}, {"main.ms": src}, exp))
     return out
 
 
@@ -233,7 +252,7 @@ def enumerated(tier, seed):
     for decl_ctx in DECL_CTX:
         for t in TYPES:
             for form, wtext, inner in write_forms(t):
-                if form in ("typed-redeclare", "unpack"):
+                if form == "typed-redeclare" or form.startswith("unpack"):
                     continue           # unpacking never targets an existing name, const or not
                 for wctx in ("same", "fn") if not inner else ("fn",):
                     for dform in decl_forms(decl_ctx, t):
